@@ -114,6 +114,12 @@ func (db *Backend) ListBucket(name string, prefix *gofakes3.Prefix, page gofakes
 			if match.MatchedPart == lastMatchedPart {
 				continue // Should not count towards keys
 			}
+			if match.MatchedPart == page.Marker {
+				// The previous page ended with this common prefix (see
+				// NextMarker below), so it has already been returned.
+				lastMatchedPart = match.MatchedPart
+				continue
+			}
 			response.AddPrefix(match.MatchedPart)
 			lastMatchedPart = match.MatchedPart
 		default:
@@ -128,6 +134,12 @@ func (db *Backend) ListBucket(name string, prefix *gofakes3.Prefix, page gofakes
 		cnt++
 		if page.MaxKeys > 0 && cnt >= page.MaxKeys {
 			response.NextMarker = item.data.name
+			if match.CommonPrefix {
+				// If the page ends with a common prefix, the next page must
+				// resume after every key rolled up into it, not after the
+				// first one, otherwise the prefix is returned again.
+				response.NextMarker = match.MatchedPart
+			}
 			response.IsTruncated = iter.Next()
 			break
 		}
